@@ -178,6 +178,9 @@ func Feed(w io.Writer, doc []byte, cuts []int, scribble bool, clock *uint64, aft
 			*clock++
 		}
 		_, err := w.Write(buf)
+		if inputModified == "" && !bytes.Equal(buf, chunk) {
+			checkUnmodified(buf, string(chunk), "Write")
+		}
 		for _, f := range after {
 			f(i)
 		}
